@@ -850,3 +850,152 @@ Lemma dict_one_point_witness :
               /\ dict_to_lp false (map (fun p => (fst p, DSeq (snd p))) d) true v = Err
               /\ dict_to_lp true (map (fun p => (fst p, DSeq (snd p))) d) true v = Ok x.
 Proof. vm_compute. eexists. eexists. repeat split. Qed.
+
+(* ====================================================================== *)
+(* 5. Reading BY NAME: `names` in any order, any subset                    *)
+(* ====================================================================== *)
+Local Close Scope Z_scope.
+
+Lemma index_of_nth (n : string) (l : list string) : forall i,
+  index_of n l = Some i -> nth i l EmptyString = n /\ i < length l.
+Proof.
+  induction l as [|x l IH]; intros i H; cbn [index_of] in H; [discriminate|].
+  destruct (String.eqb_spec n x) as [E|E].
+  - inversion H; subst. cbn. split; [reflexivity|lia].
+  - destruct (index_of n l) as [j|] eqn:Ej; [|discriminate]. inversion H; subst.
+    destruct (IH j eq_refl) as [A B]. cbn [nth length]. split; [exact A|lia].
+Qed.
+
+Lemma index_of_in (n : string) (l : list string) : In n l -> exists i, index_of n l = Some i.
+Proof.
+  induction l as [|x l IH]; intros H; [destruct H|]. cbn [index_of].
+  destruct (String.eqb_spec n x) as [E|E]; [eexists; reflexivity|].
+  destruct H as [H|H]; [subst; contradiction|]. destruct (IH H) as [i Hi]. rewrite Hi. eexists; reflexivity.
+Qed.
+
+Lemma index_of_app_l (n : string) (l rest : list string) : In n l -> index_of n (l ++ rest) = index_of n l.
+Proof.
+  induction l as [|x l IH]; intros H; [destruct H|]. cbn [app index_of].
+  destruct (String.eqb_spec n x) as [E|E]; [reflexivity|].
+  destruct H as [H|H]; [subst; contradiction|]. rewrite (IH H). reflexivity.
+Qed.
+
+Lemma map_opt_all {A B} (f : A -> option B) (l : list A) :
+  (forall a, In a l -> exists b, f a = Some b) ->
+  exists bs, map_opt f l = Some bs /\ Forall2 (fun a b => f a = Some b) l bs.
+Proof.
+  induction l as [|a l IH]; intros H.
+  - exists []. split; [reflexivity|constructor].
+  - destruct (H a (or_introl eq_refl)) as [b Hb].
+    destruct (IH (fun x Hx => H x (or_intror Hx))) as [bs [E F]].
+    exists (b :: bs). cbn [map_opt]. rewrite Hb, E. split; [reflexivity|constructor; assumption].
+Qed.
+
+(* any structured array, any list of existing field names in any order: column j of the result is
+   the column stored under names[j] *)
+Theorem to_array_by_name (x : sarr) (qn : list string) :
+  (forall n, In n qn -> In n (s_names x)) ->
+  exists idx, lp_to_array x qn = Ok (map (fun r => map (fun i => nth i r vnan) idx) (s_rows x))
+              /\ lp_to_dict x qn = Ok (combine qn (map (fun i => col_at i (s_rows x)) idx))
+              /\ Forall2 (fun n i => nth i (s_names x) EmptyString = n /\ i < length (s_names x)) qn idx.
+Proof.
+  intros H.
+  destruct (map_opt_all (fun n => index_of n (s_names x)) qn (fun n Hn => index_of_in n _ (H n Hn))) as [idx [E F]].
+  exists idx. unfold lp_to_array, lp_to_dict. rewrite E. repeat split.
+  clear -F. induction F as [|n i qn idx Hi _ IH]; constructor; [apply index_of_nth; exact Hi|exact IH].
+Qed.
+
+(* for live points holding the data a: reading the parameters back under ANY order / subset of
+   their names gives, in column j, the data column of names[j] *)
+Theorem roundtrip_by_name names nsp v a x (qn : list string) :
+  NoDup (dt_names names nsp v) -> wf_rows names a -> lp_of names nsp v a x ->
+  (forall n, In n qn -> In n names) ->
+  lp_to_array x qn
+  = Ok (map (fun r => map (fun n => match index_of n names with Some i => nth i r vnan | None => vnan end) qn) a).
+Proof.
+  intros Hnd Hwf (Hn & _ & Hr) Hq. unfold lp_to_array. rewrite Hn. unfold dt_names.
+  destruct (map_opt_all (fun n => index_of n names) qn (fun n Hn' => index_of_in n _ (Hq n Hn'))) as [idx [E F]].
+  assert (E' : map_opt (fun n => index_of n (names ++ (if nsp then ns_names v else []))) qn = Some idx).
+  { rewrite <- E. clear -Hq. induction qn as [|n qn IH]; cbn [map_opt]; [reflexivity|].
+    rewrite (index_of_app_l n names _ (Hq n (or_introl eq_refl))).
+    rewrite (IH (fun m Hm => Hq m (or_intror Hm))). reflexivity. }
+  rewrite E', Hr, map_map. f_equal. apply map_ext_in. intros r Hr'.
+  unfold wf_rows in Hwf. rewrite Forall_forall in Hwf. specialize (Hwf r Hr').
+  clear -F Hwf. induction F as [|n i qn idx Hi _ IH]; cbn [map]; [reflexivity|].
+  rewrite Hi, IH. f_equal. apply app_nth1. rewrite Hwf. apply (index_of_nth n names i Hi).
+Qed.
+
+(* ---- empty_structured_array with a caller-supplied dtype: defaults go BY NAME ---------------- *)
+Lemma assoc_def_in (k : string) (d : val) : forall names defs,
+  NoDup names -> In (k, d) (combine names defs) -> assoc_def k names defs = Some d.
+Proof.
+  induction names as [|n names IH]; intros defs Hnd Hin; [destruct Hin|].
+  destruct defs as [|d0 defs]; [destruct Hin|]. cbn [combine] in Hin. cbn [assoc_def].
+  inversion Hnd; subst. destruct (String.eqb_spec k n) as [E|E].
+  - subst. destruct Hin as [Hin|Hin]; [inversion Hin; reflexivity|].
+    exfalso. apply H1. apply (in_combine_l _ _ _ _ Hin).
+  - destruct Hin as [Hin|Hin]; [inversion Hin; subst; contradiction|]. apply IH; assumption.
+Qed.
+
+Lemma assoc_def_notin (k : string) : forall names defs, ~ In k names -> assoc_def k names defs = None.
+Proof.
+  induction names as [|n names IH]; intros defs Hn; [reflexivity|]. destruct defs as [|d0 defs]; [reflexivity|].
+  cbn [assoc_def]. destruct (String.eqb_spec k n) as [E|E]; [subst; exfalso; apply Hn; left; reflexivity|].
+  apply IH. intros H. apply Hn. right. exact H.
+Qed.
+
+Theorem empty_dtype_by_name (n : nat) (fields : list (string * kind)) (v : nsview) :
+  aligned v = true -> NoDup (map fst fields) -> NoDup (ns_names v) ->
+  (forall k, In k (ns_names v) -> In k (map fst fields)) ->
+  empty_sa_dtype n fields v
+  = Ok {| s_names := map fst fields; s_kinds := map snd fields;
+          s_rows := repeat (map (fun f => field_default v (fst f)) fields) n |}
+  /\ (forall k d, In (k, d) (combine (ns_names v) (ns_defs v)) -> field_default v k = d)
+  /\ (forall k, ~ In k (ns_names v) -> field_default v k = ns_fill v).
+Proof.
+  intros Hal Hnd Hns Hall. split; [|split].
+  - unfold empty_sa_dtype. rewrite Hal. apply nodupb_NoDup in Hnd. rewrite Hnd.
+    assert (E : forallb (fun nm => mem nm (map fst fields)) (ns_names v) = true).
+    { apply forallb_forall. intros k Hk. apply mem_In. apply Hall. exact Hk. }
+    rewrite E, orb_true_r. reflexivity.
+  - intros k d Hin. unfold field_default. rewrite (assoc_def_in k d _ _ Hns Hin). reflexivity.
+  - intros k Hk. unfold field_default. rewrite (assoc_def_notin k _ _ Hk). reflexivity.
+Qed.
+
+(* with the dtype get_dtype builds (parameters, core, extras in registration order) the by-name filling
+   is the positional default row of empty_structured_array(n, names) *)
+Lemma map_assoc_self : forall names defs fill, NoDup names -> length names = length defs ->
+  map (fun k => match assoc_def k names defs with Some d => d | None => fill end) names = defs.
+Proof.
+  induction names as [|n names IH]; intros defs fill Hnd Hl; destruct defs as [|d defs]; try discriminate; [reflexivity|].
+  inversion Hnd; subst. cbn [map assoc_def]. rewrite String.eqb_refl. f_equal.
+  etransitivity; [|apply (IH defs fill H2); cbn in Hl; lia].
+  apply map_ext_in. intros k Hk. destruct (String.eqb_spec k n) as [E|E]; [subst; contradiction|reflexivity].
+Qed.
+
+Lemma NoDup_app_r {A} (a b : list A) : NoDup (a ++ b) -> NoDup b.
+Proof. induction a as [|x a IH]; cbn [app]; intros H; [exact H|]. inversion H; subst. apply IH. assumption. Qed.
+
+Theorem empty_dtype_standard_order n names v :
+  aligned v = true -> NoDup (dt_names names true v) ->
+  empty_sa_dtype n (combine (dt_names names true v) (dt_kinds names true v)) v = empty_sa n names true v.
+Proof.
+  intros Hal Hnd. pose proof Hal as Hal'. unfold aligned in Hal'. apply andb_true_iff in Hal'.
+  destruct Hal' as [L1 L2]. apply Nat.eqb_eq in L1, L2.
+  assert (Hlen : length (dt_names names true v) = length (dt_kinds names true v)).
+  { unfold dt_names, dt_kinds. rewrite !app_length, repeat_length. lia. }
+  unfold dt_names in Hnd. pose proof (NoDup_app_r _ _ Hnd) as Hns.
+  unfold empty_sa_dtype, empty_sa, mk_arr. rewrite Hal, (map_fst_combine _ _ Hlen), (map_snd_combine _ _ Hlen).
+  pose proof Hnd as Hb. apply nodupb_NoDup in Hb. fold (dt_names names true v) in Hb. rewrite Hb.
+  assert (E : forallb (fun nm => mem nm (dt_names names true v)) (ns_names v) = true).
+  { apply forallb_forall. intros k Hk. apply mem_In. unfold dt_names. apply in_app_iff. right. exact Hk. }
+  rewrite E, orb_true_r. cbn [andb]. do 2 f_equal. unfold default_row, tail_defs.
+  rewrite <- (map_map fst (field_default v)), (map_fst_combine _ _ Hlen). unfold dt_names. rewrite map_app.
+  assert (A : map (field_default v) names = repeat (ns_fill v) (length names)).
+  { clear -Hnd. induction names as [|k names IH]; cbn [map length repeat]; [reflexivity|].
+    cbn [app] in Hnd. inversion Hnd; subst. f_equal; [|apply IH; assumption].
+    unfold field_default. rewrite assoc_def_notin; [reflexivity|]. intros Hin. apply H1. apply in_app_iff. right. exact Hin. }
+  assert (B : map (field_default v) (ns_names v) = ns_defs v).
+  { unfold field_default. apply map_assoc_self; [exact Hns|lia]. }
+  rewrite A, B. reflexivity.
+Qed.
